@@ -18,7 +18,9 @@ LEVEL = 'exploration'
 RULE = ('layered random workbooks (1-3 sheets, ragged constant rows, 8-10 formulas per sheet from 22 templates incl. ranges, whole '
         'columns, cross-sheet references, list-valued and raising formulas) x override sets (constants, formula cells, cells '
         'beyond the used range) x random schedules of 60 (thorough 200) calls mixing get_cell in four spellings, get_cells with '
-        'repeats, get_sheet by index and title, with a second executor on the same class interleaved. Non-trivial: a coordinate '
+        'repeats, get_sheet by index and title, with a second executor on the same class interleaved; the same schedules over the workbooks of '
+        'the semantic checks (aggregates, criteria incl. ==-equal criteria of different kinds, rounding modes of one amount, text forms of '
+        'TRUE/1.0/FALSE/0.0, lookups). Non-trivial: a coordinate '
         'that was observed at least 3 times through at least 2 different APIs/spellings under a non-empty override set; '
         'distinct by (book, coordinate)')
 ASSUMPTIONS = ['a fresh Executor asked once is the reference observation', 'TODAY() is excluded (time-dependent by definition)',
@@ -53,13 +55,25 @@ def spelled(titles, si, r, c, k):
     return Cell(si, L, str(r))
 
 
-def run_book(ctx, bi, ncalls, replay=None):
+def run_book(ctx, bi, ncalls, replay=None, source=None):
     from excel2pycl import Executor, Cell
     r, rng = ctx.r, ctx.rng
     if replay:
         spec = replay['spec']
         titles = [s['title'] for s in spec['sheets']]
         info = {'titles': titles, 'consts': {}, 'formulas': {}}
+    elif source is not None:
+        spec = source
+        titles = [s_['title'] for s_ in spec['sheets']]
+        info = {'titles': titles, 'consts': {}, 'formulas': {}}
+        for si_, sh_ in enumerate(spec['sheets']):
+            for a_, v_ in sh_['cells'].items():
+                v_ = wbspec.dec(v_)
+                key_ = (si_, *wbspec.rc(a_))
+                if isinstance(v_, str) and v_.startswith('='):
+                    info['formulas'][key_] = v_
+                elif not isinstance(v_, (dict, list)):
+                    info['consts'][key_] = v_
     else:
         spec, info = books.gen(rng, formulas_per_sheet=rng.randrange(6, 11))
     titles = info['titles']
@@ -139,6 +153,10 @@ def run_book(ctx, bi, ncalls, replay=None):
         mr, mc = size(ovA, si)
         coords += [(si, r_, c) for r_ in range(1, mr + 2) for c in range(1, mc + 2)]
     hot = rng.sample(coords, min(len(coords), 10))
+    if source is not None and info['formulas']:
+        fkeys = list(info['formulas'])
+        hot = rng.sample(fkeys, min(len(fkeys), 40))
+        coords = fkeys + rng.sample(coords, min(len(coords), 30))
     if replay:
         schedule = replay['schedule']
     else:
@@ -229,9 +247,55 @@ def run_book(ctx, bi, ncalls, replay=None):
         r.sample({'titles': titles, 'formulas': list(info['formulas'].values())[:8], 'overridesA': case0['overridesA'][:4], 'schedule_head': log[:6]})
 
 
+def semantic_book(rng, kind):
+    """workbooks of the semantic checks (criteria, aggregates, rounding, text forms, branches, lookups): helpers that remember
+    something on the instance or on the class between evaluations are exercised here, under schedules, on ONE executor"""
+    from . import c11, c12, c14, c16, c17
+    if kind == 'c11':
+        return c11.make_book(rng)[0]
+    if kind == 'c12':
+        spec = c12.make_book(rng)[0]
+        cells = spec['sheets'][0]['cells']
+        # criteria that are ==-equal but of different kinds over a range holding both kinds
+        cells.update({'M1': 1, 'M2': True, 'M3': '1', 'M4': 1.0, 'M5': 0, 'M6': False, 'M7': '0', 'M8': 2.5, 'N1': 10, 'N2': 100, 'N3': 1000, 'N4': 10000, 'N5': 1,
+                      'N6': 2, 'N7': 3, 'N8': 4, 'O1': 1, 'O2': True, 'O3': 0, 'O4': False, 'O5': '1',
+                      'P1': '=SUMIF(M1:M8,O1,N1:N8)', 'P2': '=SUMIF(M1:M8,O2,N1:N8)', 'P3': '=SUMIF(M1:M8,O3,N1:N8)', 'P4': '=SUMIF(M1:M8,O4,N1:N8)',
+                      'P5': '=COUNTIFS(M1:M8,O5)', 'P6': '=COUNTIFS(M1:M8,1)', 'P7': '=COUNTIFS(M1:M8,TRUE)', 'P8': '=SUMIFS(N1:N8,M1:M8,0)',
+                      'P9': '=SUMIFS(N1:N8,M1:M8,FALSE)', 'P10': '=AVERAGEIFS(N1:N8,M1:M8,1)', 'P11': '=AVERAGEIFS(N1:N8,M1:M8,TRUE)'})
+        return spec
+    if kind == 'c16':
+        cells = {'A1': rng.choice([2.675, 1.005, 0.125, 2.5, -2.5, 1234.5678, 0.000045]), 'B1': rng.choice([0, 1, 2, 3]), 'A2': 2, 'A3': 2.0}
+        for i, fn in enumerate(['ROUND', 'ROUNDUP', 'ROUNDDOWN']):
+            cells[f'C{i + 1}'] = f'={fn}(A1,B1)'
+            cells[f'D{i + 1}'] = f'={fn}(A1;B1)+0'
+            cells[f'E{i + 1}'] = f'={fn}(A2/3,B1)'
+            cells[f'F{i + 1}'] = f'={fn}(A3/3,B1)'
+        cells['G1'] = '=A1%'
+        cells['G2'] = '=(A1*100)%'
+        return wbspec.spec(wbspec.sheet('S', cells))
+    if kind == 'c17':
+        cells = dict(c17.BASE)
+        cells.update(c17.FORMS)
+        cells.update({'I1': rng.choice([True, 1.0, False, 0.0, 1, 2.0]), 'I2': True, 'I3': 1.0, 'I4': False, 'I5': 0.0, 'K1': '=I2&I3&I4&I5', 'K2': '=I3&I2', 'K3': '=CONCATENATE(I5,I4,I3,I2)',
+                      'K4': '=(2/2)&TRUE()', 'K5': '=TRUE()&(4/4)', 'K6': '=I1&"|"&I1'})
+        return wbspec.spec(wbspec.sheet('S', cells))
+    if kind == 'c14':
+        keys, cells = c14.make_table(rng, rng.choice(['asc_int', 'asc_dup', 'mixed_int_float', 'with_blanks', 'text']))
+        cells.update({'F1': keys[2] if keys[2] is not None else 1, 'G1': 2})
+        cells.update(c14.FORMS)
+        return wbspec.spec(wbspec.sheet('T', cells))
+    raise ValueError(kind)
+
+
+SEM_KINDS = ['c11', 'c12', 'c12', 'c16', 'c17', 'c14']
+
+
 def plan(tier, seed):
     n = 160 if tier == 'quick' else 1920
-    return [{'n': n // 16, 'k': k, 'calls': 60 if tier == 'quick' else 200} for k in range(16)]
+    sh = [{'n': n // 16, 'k': k, 'calls': 60 if tier == 'quick' else 200} for k in range(16)]
+    m = 48 if tier == 'quick' else 960
+    sh += [{'n': m // 8, 'k': 100 + k, 'calls': 80 if tier == 'quick' else 250, 'semantic': True} for k in range(8)]
+    return sh
 
 
 def run_shard(shard, ctx):
@@ -246,7 +310,10 @@ def run_shard(shard, ctx):
         return
     for i in range(shard['n']):
         boundary.reset()
-        run_book(ctx, shard['k'] * 1000 + i, shard['calls'])
+        src = semantic_book(ctx.rng, SEM_KINDS[i % len(SEM_KINDS)]) if shard.get('semantic') else None
+        if src is not None:
+            r.count('semantic_books:' + SEM_KINDS[i % len(SEM_KINDS)])
+        run_book(ctx, shard['k'] * 1000 + i, shard['calls'], source=src)
         for d in boundary.disagreements()[:3]:
             r.violation('contract:' + d['contract'], dict(LAST_CASE), d['detail'], 'query leaves overrides and sizes unchanged')
 
